@@ -11,6 +11,8 @@ from .c08 import handler_classes
 
 
 def run(ctx: Ctx) -> None:
+    if getattr(ctx, "_depth", 0) >= 2:
+        return  # alias of an alias: not followed (breaks import cycles between rule modules)
     repo = ctx.repo
     ctx.rule("C05.R1", "_handle (both workers): every exit - normal, exception, cancellation - passes send(None); application exceptions are logged and not propagated; cancellation is re-raised; the application gets the stream's own send/receive", floor=8)
     ctx.rule("C05.R4", "HTTP/2: when a stream is closed before its response body was completed the peer is told with RST_STREAM (otherwise it sees neither END_STREAM nor a reset and waits forever)", floor=1)
